@@ -89,6 +89,7 @@ fn statements() {
         lit("x", &format!("{}string", xs)), lit("", &format!("{}string", xs)), lit("x", &format!("{}integer", xs)), lit("x", &format!("{}token", xs)),
         lit("x", "https://www.w3.org/2001/XMLSchema#string"), lit("x", "http://www.w3.org/2001/XMLSchema#strin"), lit("x", "http://www.w3.org/2001/XMLSchema#String"),
         lit("x", "urn:x://www.w3.org/2001/XMLSchema#string"), lit("x", "http://example.org/ns#string"),
+        lit("x", "http://www.w3.org/2001/XMLSchema#substring"), lit("x", "http://www.w3.org/2001/XMLSchema#xstring"), lit("x", "http://www.w3.org/2001/XMLSchema#stringstring"),
         lang("x", "en"), lang("", "en"), lang("x", "EN-us"), lang("x", "de-CH-1996"), lang("x", "en-Latn-US-x-private"), lang("x", "zh-Hant-TW-u-ca-chinese-x-a"), lit("a\"b\\c\nd", &format!("{}string", xs)), lit("é😀", "x:d"),
         // surrounding / inner white space is part of the lexical form, whatever the datatype
         lit(" 7", &format!("{}integer", xs)), lit("7 ", &format!("{}integer", xs)), lit("\t7\n", &format!("{}integer", xs)), lit(" ", "x:d"), lit("\u{a0}7\u{2028}", "x:d"),
